@@ -8,6 +8,7 @@ import InfluxQL.Lemmas.Prec
 import InfluxQL.Lemmas.IntLit
 import InfluxQL.Lemmas.Digits
 import InfluxQL.Props.C06
+import InfluxQL.Lemmas.RegexRoundTrip
 /-
 Print → parse for expressions (C03, re-parsing half on the real parser and printer).
 
@@ -644,6 +645,169 @@ theorem unary_ident_plain (F : Nat) (s s1 : PState) (lx : Lexeme) (r1 : Cursor)
   exact hvr
 
 
+/-! ### `parseRegex` -/
+
+theorem scanRegex_chars (r : Cursor) (src k : List Char) (hok : RegexRunes src) (hend : endsBS src = false)
+    (h : r.chars = '/' :: (escapeSlashes src ++ '/' :: k)) :
+    (scanRegex r).1.tok = .REGEX ∧ (scanRegex r).1.lit = src ∧ (scanRegex r).2.chars = k := by
+  unfold Cursor.chars at h
+  obtain ⟨b1, l1, hrest, hb1, hl1⟩ := List.map_eq_cons_iff.mp h
+  obtain ⟨l2, l3, rfl, hl2, hl3⟩ := List.map_eq_append_iff.mp hl1
+  obtain ⟨b2, l4, rfl, hb2, hl4⟩ := List.map_eq_cons_iff.mp hl3
+  obtain ⟨c1, q1⟩ := b1
+  obtain ⟨c2, q2⟩ := b2
+  simp only at hb1 hb2
+  subst hb1 hb2
+  obtain ⟨e1, e2⟩ := scanRegex_print r q1 q2 l2 l4 src hrest hl2 hok hend
+  rw [e1]
+  exact ⟨rfl, rfl, by unfold Cursor.chars; rw [e2]; exact hl4⟩
+
+/-- A regex source that `RegexLiteral.String()` writes back readably: no newline, NUL or CR, not
+ending in a backslash, not starting with `*` (`/*` would open a comment; no such regex compiles). -/
+def regexB (src : List Char) : Bool :=
+  src.all (fun c => c != '\n' && c != eofRune && c != '\r') && !endsBS src && (src.head? != some '*')
+
+theorem regexB_facts {src : List Char} (h : regexB src = true) :
+    RegexRunes src ∧ endsBS src = false ∧ src.head? ≠ some '*' ∧ ∀ c ∈ src, c ≠ '\r' := by
+  unfold regexB at h
+  simp only [Bool.and_eq_true, List.all_eq_true, bne_iff_ne, ne_eq, Bool.not_eq_true'] at h
+  obtain ⟨⟨h1, h2⟩, h3⟩ := h
+  exact ⟨fun c hc => ⟨(h1 c hc).1.1, (h1 c hc).1.2⟩, h2, h3, fun c hc => (h1 c hc).2⟩
+
+theorem escapeSlashes_head (src k : List Char) (h : src.head? ≠ some '*') :
+    ∃ y t, escapeSlashes src ++ '/' :: k = y :: t ∧ y ≠ '*' := by
+  cases src with
+  | nil => exact ⟨'/', k, rfl, by decide⟩
+  | cons c rest =>
+    by_cases hc : c = '/'
+    · subst hc
+      exact ⟨'\\', '/' :: (escapeSlashes rest ++ '/' :: k), by simp [escapeSlashes], by decide⟩
+    · refine ⟨c, escapeSlashes rest ++ '/' :: k, by simp [escapeSlashes, hc], ?_⟩
+      intro e; subst e; exact h rfl
+
+theorem peek2_chars {r : Cursor} {x y : Char} {t : List Char} (h : r.chars = x :: y :: t) : r.peek2 = (x, y) := by
+  unfold Cursor.chars at h
+  unfold Cursor.peek2
+  match hr : r.rest with
+  | [] => rw [hr] at h; simp at h
+  | [a] => rw [hr] at h; simp at h
+  | a :: b :: rest => rw [hr] at h; simp at h; simp [h.1, h.2.1]
+
+/-- `parseRegex` after the optional blank, standing before a printed regex literal. -/
+theorem parseRegexSkip_text (s : PState) (src k : List Char) (hn : s.n = 0) (hsrc : regexB src = true)
+    (h : s.r.chars = '/' :: (escapeSlashes src ++ '/' :: k)) :
+    ∃ lx s', parseRegexSkip.run s = .ok (some (.regex src), s') ∧ Just s' lx s'.r ∧ s'.r.chars = k ∧ Same s s' := by
+  obtain ⟨hok, hend, hhead, _⟩ := regexB_facts hsrc
+  obtain ⟨y, t, hyt, hy⟩ := escapeSlashes_head src k hhead
+  have hp2 : s.r.peek2 = ('/', y) := peek2_chars (by rw [h, hyt])
+  have hpk : s.r.peek = '/' := (Cursor.chars_cons h).2.2
+  obtain ⟨g1, g2, g3⟩ := scanRegex_chars s.r src k hok hend h
+  obtain ⟨f1, f2, f3⟩ := rawNext_fresh true s hn
+  have f2' : (rawNext true s).2.r = (scanRegex s.r).2 := f2
+  have f3' : (rawNext true s).1 = (scanRegex s.r).1 := f3
+  refine ⟨(scanRegex s.r).1, (rawNext true s).2, ?_, ⟨by rw [rawNext_n, hn], by rw [f1, f3']; simp, rfl⟩,
+    by rw [f2']; exact g3, (rawNext_params true s).1, (rawNext_params true s).2⟩
+  unfold parseRegexSkip
+  rw [P.run_bind _ _ _ _ _ (P.run_get s)]
+  rw [show s.n + s.r.rest.length + 1 = (s.n + s.r.rest.length) + 1 from rfl, skipCommentsLoop_succ]
+  have hoc : opensComment s.r.peek2.1 s.r.peek2.2 = false := by
+    rw [hp2]; simp [opensComment, hy]
+  simp only [bind_assoc]
+  rw [P.run_bind _ _ _ _ _ (peekComment_run s), hoc]
+  simp only [Bool.false_eq_true, if_false, pure_bind, Bool.not_true]
+  unfold parseRegexTail
+  rw [P.run_bind _ _ _ _ _ (peekRune_run s), hpk]
+  simp only [show ('/' : Char) ≠ eofRune from by decide, show ('/' : Char) ≠ '$' from by decide, if_false,
+    ne_eq, not_true_eq_false]
+  rw [P.run_bind _ _ _ _ _ (pscanRegex_run s), f3', substTok_id (by rw [g1]; decide)]
+  simp [g1, g2]
+  rfl
+
+theorem consumeWhitespace_space (s : PState) (hn : s.n = 0) (c : Char) (t : List Char)
+    (hc : isWhitespace c = false) (hce : c ≠ eofRune) (h : s.r.chars = ' ' :: c :: t) :
+    ∃ s2, consumeWhitespace.run s = .ok (⟨⟩, s2) ∧ s2.n = 0 ∧ s2.r.chars = c :: t ∧ Same s s2 := by
+  obtain ⟨w1, w2⟩ := scan_space s.r c t hc hce h
+  refine ⟨{ s with r := (scan s.r).2, buf := ((scan s.r).1 :: s.buf).take 3 }, ?_, hn, w2, rfl, rfl⟩
+  unfold consumeWhitespace
+  rw [P.run_bind _ _ _ _ _ (pscan_fresh s hn (by rw [w1]; decide))]
+  simp [w1]
+  rfl
+
+/-- `parseRegex` first skips one blank, if there is one. -/
+theorem parseRegex_pre (s : PState) (hn : s.n = 0) (c : Char) (t : List Char)
+    (hc : isWhitespace c = false) (hce : c ≠ eofRune) (h : s.r.chars = c :: t ∨ s.r.chars = ' ' :: c :: t) :
+    ∃ s2, s2.n = 0 ∧ s2.r.chars = c :: t ∧ Same s s2 ∧ parseRegex.run s = parseRegexSkip.run s2 := by
+  rw [parseRegex_eq, P.run_bind _ _ _ _ _ (P.run_get s)]
+  have hn' : ¬ s.n > 0 := by omega
+  rw [P.run_ite, if_neg hn', P.run_bind _ _ _ _ _ (peekRune_run s)]
+  rcases h with h | h
+  · have hpk : s.r.peek = c := (Cursor.chars_cons h).2.2
+    refine ⟨s, hn, h, Same.refl s, ?_⟩
+    simp [hpk, hce, hc]
+  · have hpk : s.r.peek = ' ' := (Cursor.chars_cons h).2.2
+    obtain ⟨s2, hcw, hn2, hch2, hsame⟩ := consumeWhitespace_space s hn c t hc hce h
+    refine ⟨s2, hn2, hch2, hsame, ?_⟩
+    rw [hpk]
+    simp only [show (' ' : Char) ≠ eofRune from by decide, if_false, show isWhitespace ' ' = true from by decide,
+      if_true]
+    rw [P.run_bind _ _ _ _ _ hcw]
+
+/-- `parseRegex` before a printed regex literal, possibly after one blank. -/
+theorem parseRegex_text (s : PState) (src k : List Char) (hn : s.n = 0) (hsrc : regexB src = true)
+    (h : s.r.chars = '/' :: (escapeSlashes src ++ '/' :: k) ∨
+      s.r.chars = ' ' :: '/' :: (escapeSlashes src ++ '/' :: k)) :
+    ∃ lx s', parseRegex.run s = .ok (some (.regex src), s') ∧ Just s' lx s'.r ∧ s'.r.chars = k ∧ Same s s' := by
+  obtain ⟨s2, hn2, hch2, hsame2, hrun⟩ := parseRegex_pre s hn '/' _ (by decide) (by decide) h
+  obtain ⟨lx, s', h1, h2, h3, h4⟩ := parseRegexSkip_text s2 src k hn2 hsrc hch2
+  exact ⟨lx, s', by rw [hrun]; exact h1, h2, h3, hsame2.trans h4⟩
+
+/-- The start of a printed operand: no `/`, no `$`, no comment opener. -/
+def NoRegexStart (txt : List Char) : Prop :=
+  ∃ c t, txt = c :: t ∧ c ≠ '/' ∧ c ≠ '$' ∧ c ≠ eofRune ∧ isWhitespace c = false ∧
+    (c = '-' → ∃ d t', t = d :: t' ∧ d ≠ '-')
+
+/-- `parseRegex` before anything that is no regex literal: nothing but the blank is consumed. -/
+theorem parseRegex_none (s : PState) (txt : List Char) (hn : s.n = 0) (ht : NoRegexStart txt)
+    (h : s.r.chars = txt ∨ s.r.chars = ' ' :: txt) :
+    ∃ s2, parseRegex.run s = .ok (none, s2) ∧ s2.n = 0 ∧ s2.r.chars = txt ∧ Same s s2 := by
+  obtain ⟨c, t, rfl, h1, h2, h3, h4, h5⟩ := ht
+  obtain ⟨s2, hn2, hch2, hsame2, hrun⟩ := parseRegex_pre s hn c t h4 h3 h
+  refine ⟨s2, ?_, hn2, hch2, hsame2⟩
+  rw [hrun]
+  have hpk : s2.r.peek = c := (Cursor.chars_cons hch2).2.2
+  have hoc : opensComment s2.r.peek2.1 s2.r.peek2.2 = false := by
+    cases t with
+    | nil =>
+      have : s2.r.peek2 = (c, eofRune) := by
+        unfold Cursor.chars at hch2
+        unfold Cursor.peek2
+        match hr : s2.r.rest with
+        | [] => rw [hr] at hch2; simp at hch2
+        | [a] => rw [hr] at hch2; simp at hch2; simp [hch2]
+        | a :: b :: rest => rw [hr] at hch2; simp at hch2
+      rw [this]
+      simp [opensComment, h1]
+      intro _; decide
+    | cons d t' =>
+      rw [peek2_chars hch2]
+      simp only [opensComment, Bool.or_eq_false_iff, Bool.and_eq_false_iff, beq_eq_false_iff_ne, ne_eq]
+      refine ⟨?_, Or.inl h1⟩
+      by_cases hm : c = '-'
+      · obtain ⟨d', t'', e, hd⟩ := h5 hm
+        simp only [List.cons.injEq] at e
+        right; rw [e.1]; exact hd
+      · exact Or.inl hm
+  unfold parseRegexSkip
+  rw [P.run_bind _ _ _ _ _ (P.run_get s2)]
+  rw [show s2.n + s2.r.rest.length + 1 = (s2.n + s2.r.rest.length) + 1 from rfl, skipCommentsLoop_succ]
+  simp only [bind_assoc]
+  rw [P.run_bind _ _ _ _ _ (peekComment_run s2), hoc]
+  simp only [Bool.false_eq_true, if_false, pure_bind, Bool.not_true]
+  unfold parseRegexTail
+  rw [P.run_bind _ _ _ _ _ (peekRune_run s2), hpk]
+  simp [h1, h2, h3]
+  rfl
+
 /-! ## Part 5: an expression as the chain it prints as -/
 
 open Prec
@@ -820,16 +984,28 @@ theorem headOK_of_B {l : List Char} (h : headOKB l = true) : HeadOK l := by
 
 theorem binOps_head : ∀ op ∈ binOps, headOKB op.str = true := by decide
 
+/-- A regex literal with a readable source (the right operand of `=~` / `!~`). -/
+def regexLitB : Expr → Bool
+  | .regex src => regexB src
+  | _ => false
+
+theorem regexLitB_elim {e : Expr} (h : regexLitB e = true) : ∃ src, e = .regex src ∧ regexB src = true := by
+  cases e <;> first | exact ⟨_, rfl, h⟩ | (simp [regexLitB] at h)
+
+theorem print_regex (src : Str) : (Expr.regex src).print = ['/'] ++ escapeSlashes src ++ ['/'] := rfl
+
 mutual
   /-- **The printable class.** What `ParseExpr` returns and `String()` writes back unambiguously:
-  every binary node carries one of the eighteen operators and its operands are grouped as the five
+  every binary node carries one of the eighteen operators (the right operand of `=~` / `!~` being a
+  regex literal, as the parser demands) and its operands are grouped as the five
   levels demand (an unparenthesised left operand binds at least as tightly as its parent, a right
   one strictly tighter — this is what excludes the `a / -1 * b` finding); leaves are variable
   references, string, integer (of either sign), unsigned and boolean literals, parenthesised
   expressions. -/
   def rtOK : Expr → Bool
     | .binary op l r =>
-      op.isOperator && !op.isRegexOp && rtOK l && rtOK r && topGeB op.precedence l && topGeB (op.precedence + 1) r
+      op.isOperator && rtOK l && (if op.isRegexOp then regexLitB r else rtOK r) &&
+        topGeB op.precedence l && topGeB (op.precedence + 1) r
     | .paren e => rtOK e
     | .call _ _ => false
     | .varRef v t => exprB v && (t == .Unknown)
@@ -847,35 +1023,52 @@ theorem topGeB_toT {q : Nat} {e : Expr} (h : topGeB q e = true) : TopGe q (toT e
   cases e <;> first | trivial | (simp only [topGeB, decide_eq_true_eq] at h; exact h)
 
 theorem rtOK_binary {op : Token} {l r : Expr} (h : rtOK (.binary op l r) = true) :
-    op.isOperator = true ∧ op.isRegexOp = false ∧ rtOK l = true ∧ rtOK r = true ∧
+    op.isOperator = true ∧ rtOK l = true ∧ (if op.isRegexOp then regexLitB r = true else rtOK r = true) ∧
       topGeB op.precedence l = true ∧ topGeB (op.precedence + 1) r = true := by
   rw [rtOK] at h
-  simp only [Bool.and_eq_true, Bool.not_eq_true'] at h
-  obtain ⟨⟨⟨⟨⟨h1, h2⟩, h3⟩, h4⟩, h5⟩, h6⟩ := h
-  exact ⟨h1, h2, h3, h4, h5, h6⟩
+  simp only [Bool.and_eq_true] at h
+  obtain ⟨⟨⟨⟨h1, h3⟩, h4⟩, h5⟩, h6⟩ := h
+  refine ⟨h1, h3, ?_, h5, h6⟩
+  split <;> simp_all
 
 theorem rtOK_wellGrouped (e : Expr) (h : rtOK e = true) : WellGrouped (toT e) := by
   fun_induction toT e with
   | case1 op l r ihl ihr =>
-    obtain ⟨_, _, h3, h4, h5, h6⟩ := rtOK_binary h
-    exact ⟨topGeB_toT h5, topGeB_toT h6, ihl h3, ihr h4⟩
+    obtain ⟨_, h3, h4, h5, h6⟩ := rtOK_binary h
+    refine ⟨topGeB_toT h5, topGeB_toT h6, ihl h3, ?_⟩
+    split at h4
+    · obtain ⟨src, rfl, _⟩ := regexLitB_elim h4
+      trivial
+    · exact ihr h4
   | case2 e hnb => trivial
 
 /-- An operator of the chain with the operand after it. -/
 def OpOK (p : Token × Expr) : Prop :=
-  p.1.isOperator = true ∧ p.1.isRegexOp = false ∧ rtOK p.2 = true ∧ NB p.2
+  p.1.isOperator = true ∧ NB p.2 ∧ (if p.1.isRegexOp then regexLitB p.2 = true else rtOK p.2 = true)
 
 theorem rtOK_chain (e : Expr) (h : rtOK e = true) : rtOK (firstA e) = true ∧ ∀ p ∈ opsOf e, OpOK p := by
   fun_induction opsOf e with
   | case1 op l r ihl ihr =>
-    obtain ⟨h1, h2, h3, h4, _, _⟩ := rtOK_binary h
+    obtain ⟨h1, h3, h4, _, _⟩ := rtOK_binary h
     refine ⟨(ihl h3).1, ?_⟩
     intro p hp
     simp only [List.mem_append, List.mem_cons] at hp
-    rcases hp with hp | rfl | hp
-    · exact (ihl h3).2 p hp
-    · exact ⟨h1, h2, (ihr h4).1, firstA_nb r⟩
-    · exact (ihr h4).2 p hp
+    by_cases hre : op.isRegexOp = true
+    · rw [if_pos hre] at h4
+      obtain ⟨src, rfl, hsrc⟩ := regexLitB_elim h4
+      rcases hp with hp | rfl | hp
+      · exact (ihl h3).2 p hp
+      · refine ⟨h1, firstA_nb _, ?_⟩
+        show (if op.isRegexOp = true then regexLitB (firstA (.regex src)) = true else _)
+        rw [if_pos hre]; exact hsrc
+      · simp [opsOf] at hp
+    · rw [if_neg hre] at h4
+      rcases hp with hp | rfl | hp
+      · exact (ihl h3).2 p hp
+      · refine ⟨h1, firstA_nb r, ?_⟩
+        show (if op.isRegexOp = true then _ else rtOK (firstA r) = true)
+        rw [if_neg hre]; exact (ihr h4).1
+      · exact (ihr h4).2 p hp
   | case2 e hnb =>
     refine ⟨?_, fun p hp => by cases hp⟩
     rw [firstA_of_nb (fun op l r he => hnb op l r he)]; exact h
@@ -980,7 +1173,7 @@ theorem specL_step (F : Nat) (ihU : SpecU F) (ihL : SpecL F) : SpecL (F + 1) := 
     rw [wp_ite, if_pos hnop, wp_bind, unscan_wp, wp_pure]
     exact ⟨rfl, hat1, hsame.trans (unsc_same s1)⟩
   | cons p rest' =>
-    obtain ⟨hop, hnre, hok, hnb⟩ := hrest p (by simp)
+    obtain ⟨hop, hnb, hok⟩ := hrest p (by simp)
     have hat' : AtW s (p.1.str ++ ' ' :: (p.2.print ++ (printOps rest' ++ k))) := by
       apply At.atW
       simpa [printOps] using hat
@@ -994,19 +1187,31 @@ theorem specL_step (F : Nat) (ihU : SpecU F) (ihL : SpecL F) : SpecL (F + 1) := 
             exact ⟨by decide, by decide, by decide⟩)
     rw [wp_of_run_ok hrun]
     have hnop : ¬ (!lx.tok.isOperator) = true := by rw [htok, hop]; simp
-    have hnre' : ¬ lx.tok.isRegexOp = true := by rw [htok, hnre]; simp
     rw [wp_ite, if_neg hnop]
     dsimp only
-    rw [wp_ite, if_neg hnre', wp_bind]
     have hrest' : ∀ q ∈ rest', OpOK q := fun q hq => hrest q (by simp [hq])
-    refine wp_mono (ihU s1 p.2 (printOps rest' ++ k) hok hnb
-      (sepU_printOps _ k (fun q hq => (hrest' q hq).1) hk) ⟨r1, Or.inl ⟨hj.1, hj.2.2⟩, Or.inr hq⟩) ?_ (fun _ h => h)
-    intro a s2 ⟨ha, hat2, hsame2⟩
-    subst ha
-    refine wp_mono (ihL s2 _ rest' k hrest' hk hat2) ?_ (fun _ h => h)
-    intro e' s3 ⟨he', hat3, hsame3⟩
-    exact ⟨by rw [he', htok]; rfl, hat3, (hsame.trans hsame2).trans hsame3⟩
-
+    by_cases hre : p.1.isRegexOp = true
+    · rw [if_pos hre] at hok
+      obtain ⟨src, hp2, hsrc⟩ := regexLitB_elim hok
+      rw [hp2, print_regex] at hq
+      obtain ⟨lx2, s2, hrun2, hj2, hch2, hsame2⟩ := parseRegex_text s1 src (printOps rest' ++ k) hj.1 hsrc
+        (Or.inr (by rw [hj.2.2]; simpa using hq))
+      rw [wp_ite, if_pos (by rw [htok]; exact hre), wp_bind, wp_of_run_ok hrun2]
+      dsimp only
+      rw [wp_bind, wp_pure]
+      refine wp_mono (ihL s2 _ rest' k hrest' hk (hj2.at (Or.inl hch2))) ?_ (fun _ h => h)
+      intro e' s3 ⟨he', hat3, hsame3⟩
+      exact ⟨by rw [he', htok, List.foldl_cons, hp2], hat3, (hsame.trans hsame2).trans hsame3⟩
+    · rw [if_neg hre] at hok
+      have hnre' : ¬ lx.tok.isRegexOp = true := by rw [htok]; exact hre
+      rw [wp_ite, if_neg hnre', wp_bind]
+      refine wp_mono (ihU s1 p.2 (printOps rest' ++ k) hok hnb
+        (sepU_printOps _ k (fun q hq => (hrest' q hq).1) hk) ⟨r1, Or.inl ⟨hj.1, hj.2.2⟩, Or.inr hq⟩) ?_ (fun _ h => h)
+      intro a s2 ⟨ha, hat2, hsame2⟩
+      subst ha
+      refine wp_mono (ihL s2 _ rest' k hrest' hk hat2) ?_ (fun _ h => h)
+      intro e' s3 ⟨he', hat3, hsame3⟩
+      exact ⟨by rw [he', htok]; rfl, hat3, (hsame.trans hsame2).trans hsame3⟩
 
 /-- The token at a separator is none of those that would continue an operand. -/
 theorem scan_sep_tok (r : Cursor) (k : List Char) (h : Rem r k) (hk : SepU k) :
@@ -1222,14 +1427,26 @@ theorem binOps_noCR : ∀ op ∈ binOps, op.str.all (fun c => c != '\r') = true 
 delivers it unchanged. -/
 theorem print_noCR : ∀ e : Expr, rtOK e = true → NoCR e.print
   | .binary op l r, h => by
-    obtain ⟨h1, _, h3, h4, _, _⟩ := rtOK_binary h
+    obtain ⟨h1, h3, h4, _, _⟩ := rtOK_binary h
     rw [print_binary]
     have hop : NoCR op.str := by
       intro c hc
       have := List.all_eq_true.mp (binOps_noCR op (isOperator_mem h1)) c hc
       simpa using this
     have hsp : NoCR [' '] := by intro c hc; simp at hc; subst hc; decide
-    exact ((((print_noCR l h3).append hsp).append hop).append hsp).append (print_noCR r h4)
+    have hr : NoCR r.print := by
+      split at h4
+      · obtain ⟨src, rfl, hsrc⟩ := regexLitB_elim h4
+        rw [print_regex]
+        have hsl : NoCR ['/'] := by intro c hc; simp at hc; subst hc; decide
+        refine (hsl.append ?_).append hsl
+        intro c hc
+        obtain ⟨x, hx, hcx⟩ := List.mem_flatMap.mp hc
+        split at hcx
+        · simp at hcx; rcases hcx with rfl | rfl <;> decide
+        · simp at hcx; subst hcx; exact (regexB_facts hsrc).2.2.2 c hx
+      · exact print_noCR r h4
+    exact ((((print_noCR l h3).append hsp).append hop).append hsp).append hr
   | .paren e, h => by
     have he : rtOK e = true := by rw [rtOK] at h; exact h
     rw [print_paren]
